@@ -165,6 +165,10 @@ fn gen(rng: &mut Rng) -> Built {
     Built { nodes, fault }
 }
 
+pub fn gen_nodes(rng: &mut Rng) -> Vec<Node> {
+    gen(rng).nodes
+}
+
 fn dir_name(w: u8) -> &'static str {
     match w {
         1 => "db",
